@@ -84,7 +84,7 @@ _CO = {}
 
 
 def called_only_from_constructors(repo, ci, name):
-    idx = _CO.get(id(repo))
+    idx = repo.__dict__.get('_called_index')
     if idx is None:
         idx = {}
         for other in repo.functions.values():
@@ -97,8 +97,7 @@ def called_only_from_constructors(repo, ci, name):
                     d = idx.setdefault(n.func.attr, {'refs': 0, 'calls': 0, 'callers': set()})
                     d['calls'] += 1
                     d['callers'].add(caller)
-        _CO.clear()
-        _CO[id(repo)] = idx
+        repo.__dict__['_called_index'] = idx
     d = idx.get(name)
     if not d:
         return False
